@@ -204,6 +204,10 @@ def kmu_case(run, ps, rng, n, fam, Nk, Nmu, poles, nthread, L):
         run.nt(('kmu', n, fam, Nk, Nmu, tuple(poles), nthread))
     if cnt.dtype.kind != 'i':
         return run.violation('kmu-counts-not-integer', desc)
+    # a finite mesh never gives a non-finite mean (the k=0 mode, whose mu is undefined, included)
+    for name_, arr_ in (('power', wc), ('k_avg', wck), ('poles', wcp)):
+        if not np.isfinite(np.asarray(arr_)).all():
+            return run.violation('kmu-non-finite-output', dict(output=name_, where=[int(x) for x in np.argwhere(~np.isfinite(np.asarray(arr_)))[0]], **desc))
     if compare_counts(run, cnt, ref, desc, key):
         return True
     clean = ref['maxextra'] == 0
